@@ -417,3 +417,101 @@ mod tests {
         assert_eq!(dec_string_id.num, stream_id.num);
     }
 }
+
+/// Verification hooks (compiled only with `--cfg libp2p_verif`): a public mirror of the
+/// crate-private frame types and thin wrappers that call the real [`Codec`].
+#[cfg(libp2p_verif)]
+pub mod verif_hooks {
+    use super::*;
+
+    pub const MAX_FRAME: usize = MAX_FRAME_SIZE;
+
+    #[derive(Debug, Clone, Copy, PartialEq, Eq)]
+    pub enum Kind {
+        Open,
+        Data,
+        Close,
+        Reset,
+    }
+
+    /// A frame with its stream id. For a frame to encode, `dialer` is the LOCAL role
+    /// of the stream id; for a decoded frame it is the role of the REMOTE stream id.
+    #[derive(Debug, Clone, PartialEq, Eq)]
+    pub struct FrameRepr {
+        pub kind: Kind,
+        pub num: u64,
+        pub dialer: bool,
+        pub data: Bytes,
+    }
+
+    pub struct CodecHook(Codec);
+
+    impl Default for CodecHook {
+        fn default() -> Self {
+            CodecHook(Codec::new())
+        }
+    }
+
+    impl CodecHook {
+        /// `<Codec as Encoder>::encode` of the frame with a `LocalStreamId`.
+        pub fn encode(&mut self, f: FrameRepr, dst: &mut BytesMut) -> io::Result<()> {
+            let stream_id = LocalStreamId {
+                num: f.num,
+                role: if f.dialer {
+                    Endpoint::Dialer
+                } else {
+                    Endpoint::Listener
+                },
+            };
+            let frame = match f.kind {
+                Kind::Open => Frame::Open { stream_id },
+                Kind::Data => Frame::Data {
+                    stream_id,
+                    data: f.data,
+                },
+                Kind::Close => Frame::Close { stream_id },
+                Kind::Reset => Frame::Reset { stream_id },
+            };
+            self.0.encode(frame, dst)
+        }
+
+        /// `<Codec as Decoder>::decode`; the stream id of the result is a `RemoteStreamId`.
+        pub fn decode(&mut self, src: &mut BytesMut) -> io::Result<Option<FrameRepr>> {
+            Ok(self.0.decode(src)?.map(|frame| {
+                let id = frame.remote_id();
+                let (kind, data) = match frame {
+                    Frame::Open { .. } => (Kind::Open, Bytes::new()),
+                    Frame::Data { data, .. } => (Kind::Data, data),
+                    Frame::Close { .. } => (Kind::Close, Bytes::new()),
+                    Frame::Reset { .. } => (Kind::Reset, Bytes::new()),
+                };
+                FrameRepr {
+                    kind,
+                    num: id.num,
+                    dialer: matches!(id.role, Endpoint::Dialer),
+                    data,
+                }
+            }))
+        }
+
+        /// 0 = Begin, 1 = HasHeader, 2 = HasHeaderAndLen, 3 = Poisoned.
+        pub fn decoder_state(&self) -> u8 {
+            match self.0.decoder_state {
+                CodecDecodeState::Begin => 0,
+                CodecDecodeState::HasHeader(_) => 1,
+                CodecDecodeState::HasHeaderAndLen(..) => 2,
+                CodecDecodeState::Poisoned => 3,
+            }
+        }
+
+        /// The local stream id a decoded remote stream id maps to (`RemoteStreamId::into_local`).
+        pub fn into_local_is_dialer(num: u64, remote_dialer: bool) -> bool {
+            let remote = if remote_dialer {
+                RemoteStreamId::dialer(num)
+            } else {
+                RemoteStreamId::listener(num)
+            };
+            matches!(remote.into_local().role, Endpoint::Dialer)
+        }
+    }
+}
